@@ -11,6 +11,7 @@ package main
 import (
 	"fmt"
 	"os"
+	"strings"
 
 	"verif/internal/gitx"
 	"verif/internal/vf"
@@ -28,6 +29,16 @@ func run(c *vf.Ctx) {
 		c.Eval(res.shape, true)
 		c.Seen("message_types", res.msg)
 		c.Count("roundtrips", 1)
+		if len(res.rel) > 0 {
+			c.Count("values_with_overlapping_id_lists", 1)
+			c.Count("overlap:"+res.msg, 1)
+			for _, x := range res.rel {
+				c.Seen("id_list_relations", res.msg+":"+x)
+				if strings.HasPrefix(x, "max(") {
+					c.Count("overlap-boundary:"+res.msg, 1)
+				}
+			}
+		}
 		if res.failKey != "" {
 			replay["wire"] = vf.Q(res.wire)
 			c.Fail(res.failKey, res.msg+": "+res.failWhat, replay)
@@ -67,6 +78,15 @@ func run(c *vf.Ctx) {
 	c.Extra("git_invocations", gitx.Calls.Load())
 	c.Floor("round trips", c.Counter("roundtrips"), c.N(2500, 50000))
 	c.Floor("message types", c.SeenCount("message_types"), 14)
+	// overlapping id lists (ids drawn from one pool): wants/shallows/haves that share members
+	c.Floor("UploadRequest values whose wants and shallows overlap", c.Counter("overlap:UploadRequest"), c.N(120, 3000))
+	c.Floor("UploadRequest values with max(wants)=min(shallows) or the reverse", c.Counter("overlap-boundary:UploadRequest"), c.N(60, 1500))
+	c.Floor("v2 fetch requests whose wants/haves/shallows overlap", c.Counter("overlap:CommandRequest(fetch)"), c.N(40, 900))
+	c.Floor("ShallowUpdate values whose shallow and unshallow lists overlap", c.Counter("overlap:ShallowUpdate"), c.N(40, 900))
+	c.Floor("UpdateRequests values with ids shared between commands/shallows", c.Counter("overlap:UpdateRequests"), c.N(40, 900))
+	c.Floor("UploadHaves values with a repeated have", c.Counter("overlap:UploadHaves"), c.N(25, 600))
+	c.Floor("distinct id-list relations seen", c.SeenCount("id_list_relations"), 20)
+	c.Floor("git upload-pack runs where the client is shallow at the commit it wants", c.Counter("git_uploadpack_shallow_at_want"), c.N(4, 25))
 	c.Floor("git ls-remote confirmations of advertisements", c.Counter("git_lsremote_confirmations"), c.N(50, 300))
 	c.Floor("git receive-pack confirmations of update requests", c.Counter("git_receivepack_confirmations"), c.N(18, 110))
 	c.Floor("git upload-pack confirmations of upload requests", c.Counter("git_uploadpack_confirmations"), c.N(25, 120))
